@@ -59,11 +59,23 @@ def removed_ctx_lists(s: dict, removed: list, rng) -> list:
 # ------------------------------------------------------------------------------------------------
 # texts
 # ------------------------------------------------------------------------------------------------
-BOUNDARY_STYLES = ['zero', 'zero_and_none', 'zero_one', 'u64', 'all_widths']
+BOUNDARY_STYLES = ['zero', 'zero_and_none', 'zero_one', 'u64', 'all_widths', 'no_lang', 'no_lang_only']
 
 
 def boundary_store(rng, style: str) -> list:
     LT = pm_types.LocalizedText
+    if style in ('no_lang', 'no_lang_only'):
+        # LocalizedText.Lang is optional.  no_lang: r1 translated + Lang-less in both versions, r2 ONLY Lang-less, ref.3 Lang-less only in
+        # the latest version (translated in the old one).  no_lang_only: not one stored text has a language.
+        texts = []
+        for v in (1, 4):
+            for ref in ('r1', 'r2', 'ref.3'):
+                for n in range(1, 4):
+                    texts.append(LT('\n'.join([f'no language {ref} v{v}'] * n), lang=None, ref=ref, version=v, text_width=rng.choice([None] + WIDTHS)))
+                if style == 'no_lang' and (ref == 'r1' or (ref == 'ref.3' and v == 1)):
+                    for lang in ('en', 'de'):
+                        texts.append(LT(f'{lang} {ref} v{v}\nsecond', lang=lang, ref=ref, version=v, text_width=rng.choice([None] + WIDTHS)))
+        return texts
     versions = {'zero': [0], 'zero_and_none': [None, 0], 'zero_one': [0, 1], 'u64': [1, U64], 'all_widths': [0, 3]}[style]
     bodies = ['', 'one', 'one\ntwo', 'one\ntwo\n', 'a\nb\nc\nd\ne', '\n', 'x. y! z?']
     texts = []
